@@ -49,6 +49,23 @@ func (c *Case) docPool(key string, n int, mk func(g *xgen.G) *xdoc.Doc) []*xdoc.
 	return docs
 }
 
+// expensive skips a case whose expression is too costly for the op budget on document d (counted as skipped).
+func (c *Case) expensive(e xref.Expr, d *xdoc.Doc) bool {
+	if xgen.TooExpensive(e, len(d.Nodes)) {
+		c.Skip("estimated engine cost beyond the bounded workload (see xgen.CostEstimate)")
+		return true
+	}
+	return false
+}
+
+func (c *Case) expensiveText(src string, d *xdoc.Doc) bool {
+	if xgen.CostEstimateText(src, len(d.Nodes)) > xgen.MaxCost {
+		c.Skip("estimated engine cost beyond the bounded workload (see xgen.CostEstimate)")
+		return true
+	}
+	return false
+}
+
 // compile compiles src; a rejection of a text the reference grammar accepts is a violation.
 func (c *Case) compile(src string, detail func() map[string]interface{}) (ce *xpath.Expr) {
 	defer func() {
